@@ -95,3 +95,22 @@ func c20ConnLines(out *Out) {
 	out.Line("%s", c20DialAgain())
 	out.Line("%s", c20CancelledBatchBusy())
 }
+
+// c19DialClosed (C19): a region client that was closed before anybody dialled it (Close of the
+// client reaches it between its creation and its establisher's Dial) does not open a connection
+// when Dial is called afterwards.
+func c19DialClosed() string {
+	dials := 0
+	v := newVConn()
+	dialer := func(ctx context.Context, network, addr string) (net.Conn, error) { dials++; return v, nil }
+	rc := region.NewClient("vconn:0", region.RegionClient, 5, 0, "verif", time.Hour, nil, dialer, discardLogger)
+	rc.Close()
+	err := rc.Dial(context.Background())
+	verdict := "ok"
+	if dials != 0 {
+		verdict = fmt.Sprintf("dialled-%d-times-after-close", dials)
+	} else if err == nil {
+		verdict = "dial-succeeded-on-closed-client"
+	}
+	return "c19 check connection-opened-after-close " + verdict
+}
